@@ -146,6 +146,12 @@ def dishonest(ch, now):
                       "signature": sgxpki.sign_der(att_b, quote_b).hex(), "signed_by": "attestation_b"})
         targets = ch.pick([["quote_b", "quote"], ["quote", "quote_b"]], "dis.targets")
         dev = dev + ("+bad-second-branch" if bad_b else "+second-branch")
+    if ch.draw(3, "dis.ancestor-target") == 1:
+        # an ancestor of the quote is a target too, listed before or after it: every target is judged
+        # along its whole path, whatever was found for another target
+        anc = ch.pick([e["name"] for e in elems if e["name"] not in ("quote", "quote_b")], "dis.ancestor")
+        targets = [anc] + targets if ch.draw(2, "dis.ancestor-first") == 0 else targets + [anc]
+        dev = dev + "+ancestor-target"
     elems = ch.shuffle(elems, "dis.order")
     return {"version": 2, "targets": targets, "elements": elems}, root_der, dev
 
@@ -291,6 +297,13 @@ def run_one(ch, cfg):
     stored = A.load_json(w, A.SGX_ATT)
     rc = REF.load(stored)
     ref = None if rc is None else REF.validate(rc, root_der, when)
+    if real_err and real_err.startswith("NotImplementedError") and isinstance(ref, dict) and any(
+            v[0] and v[1] is None for v in ref.values()):
+        # a target that verifies but is not a quote cannot provide a value: the implementation
+        # refuses the whole call; the property speaks of quote targets only
+        w.entropy_on = False
+        return _res(viol, w, (cls, kind, "non-quote-target-valid"), False, {"non_quote_target_valid": 1},
+                    {"class": cls, "alteration": kind})
     desc = "class %s/%s element %s clock %s: real %s%s, reference %s" % (
         cls, kind, elem_name, clock_cls, _norm(real), (" (" + real_err + ")") if real_err else "",
         _norm(ref))
@@ -325,6 +338,8 @@ def run_one(ch, cfg):
                 real2 = _norm(cert.validate_and_get_values(HSMCertificateV2ElementX509({
                     "name": "sgx_root", "message": base64.b64encode(r2).decode(),
                     "signed_by": "sgx_root"})))
+            except NotImplementedError:
+                break             # a non-quote target became valid under this root / instant: see above
             except Exception as e:
                 real2 = "%s: %s" % (type(e).__name__, str(e)[:80])
             ref2 = _norm(REF.validate(rc, r2, when2))
